@@ -123,29 +123,42 @@ func goEnv() []string {
 }
 
 func loadChecks() []Check {
-	b, err := os.ReadFile(filepath.Join(verifRoot, "checks.json"))
-	if err != nil {
-		die(2, "%v", err)
-	}
+	files, _ := filepath.Glob(filepath.Join(verifRoot, "checks.d", "*.json"))
+	sort.Strings(files)
 	var cs []Check
-	if err := json.Unmarshal(b, &cs); err != nil {
-		die(2, "checks.json: %v", err)
+	for _, f := range files {
+		b, err := os.ReadFile(f)
+		if err != nil {
+			die(2, "%v", err)
+		}
+		var c Check
+		if err := json.Unmarshal(b, &c); err != nil {
+			die(2, "%s: %v", f, err)
+		}
+		cs = append(cs, c)
 	}
 	return cs
 }
 
 func loadFindings() []Finding {
-	b, err := os.ReadFile(filepath.Join(verifRoot, "known_findings.json"))
-	if err != nil {
-		return nil
+	files, _ := filepath.Glob(filepath.Join(verifRoot, "known_findings.d", "*.json"))
+	sort.Strings(files)
+	files = append([]string{filepath.Join(verifRoot, "known_findings.json")}, files...)
+	var all []Finding
+	for _, f := range files {
+		b, err := os.ReadFile(f)
+		if err != nil {
+			continue
+		}
+		var w struct {
+			Findings []Finding `json:"findings"`
+		}
+		if err := json.Unmarshal(b, &w); err != nil {
+			die(2, "%s: %v", f, err)
+		}
+		all = append(all, w.Findings...)
 	}
-	var w struct {
-		Findings []Finding `json:"findings"`
-	}
-	if err := json.Unmarshal(b, &w); err != nil {
-		die(2, "known_findings.json: %v", err)
-	}
-	return w.Findings
+	return all
 }
 
 // buildOverlay writes overlay.json into work and returns its path.
